@@ -34,7 +34,8 @@ inductive ErrClass where
   | corruptedIndex              -- store.ErrCorruptedIndex
   | illegalTruncationArgument   -- store.ErrIllegalTruncationArgument (wraps ErrIllegalArguments)
   | eof                         -- io.EOF
-  | corruptedMetadata           -- singleapp.ErrCorruptedMetadata
+  | corruptedMetadata           -- singleapp.ErrCorruptedMetadata / appendable.ErrCorruptedMetadata
+  | unexpectedEof               -- io.ErrUnexpectedEOF
   | other                       -- any other returned error
   | fuel                        -- MODEL ARTEFACT: loop fuel exhausted (proved unreachable)
   deriving DecidableEq, Repr, Inhabited
@@ -47,6 +48,7 @@ def ErrClass.toString : ErrClass → String
   | .illegalTruncationArgument => "illegal-truncation"
   | .eof => "eof"
   | .corruptedMetadata => "corrupted-metadata"
+  | .unexpectedEof => "unexpected-eof"
   | .other => "other"
   | .fuel => "FUEL"
 
@@ -179,14 +181,15 @@ structure Fix where
   /-- `ReplicateTx`: `if len(v) == 0 || v[0] > 1 { … }` instead of `if len(v) > 0 && v[0] > 1 { … }`
   before `v[0]` (PRESENT in /repo) -/
   tZero : Bool := false
-  /-- `appendable.Metadata.ReadFrom`: `if len(lenb) < 4 { … }` before `Uint32(lenb)` (absent) -/
+  /-- `appendable.Metadata.ReadFrom`: `if len(lenb) < 4 { return 0, ErrCorruptedMetadata }` before
+  `Uint32(lenb)` (PRESENT in /repo) -/
   appCount : Bool := false
   deriving DecidableEq, Repr
 
 def Fix.none : Fix := {}
 def Fix.all : Fix := ⟨true, true, true, true, true, true⟩
 /-- The code as it stands in /repo. -/
-def Fix.current : Fix := { extraLen := true, hdrTail := true, vLen := true, tLen := true, tZero := true }
+def Fix.current : Fix := { extraLen := true, hdrTail := true, vLen := true, tLen := true, tZero := true, appCount := true }
 
 @[simp] theorem Fix.none_extraLen : Fix.none.extraLen = false := rfl
 @[simp] theorem Fix.none_hdrTail : Fix.none.hdrTail = false := rfl
@@ -205,6 +208,6 @@ def Fix.current : Fix := { extraLen := true, hdrTail := true, vLen := true, tLen
 @[simp] theorem Fix.current_vLen : Fix.current.vLen = true := rfl
 @[simp] theorem Fix.current_tLen : Fix.current.tLen = true := rfl
 @[simp] theorem Fix.current_tZero : Fix.current.tZero = true := rfl
-@[simp] theorem Fix.current_appCount : Fix.current.appCount = false := rfl
+@[simp] theorem Fix.current_appCount : Fix.current.appCount = true := rfl
 
 end ImmuModel.Go
